@@ -358,11 +358,18 @@ func toTypeMeta(ext interface{}) (yaml.TypeMeta, bool) {
 		return yaml.TypeMeta{}, false
 	}
 
-	apiVersion := m[versionKey].(string)
+	apiVersion, ok := m[versionKey].(string)
+	if !ok {
+		return yaml.TypeMeta{}, false
+	}
+	kind, ok := m[kindKey].(string)
+	if !ok {
+		return yaml.TypeMeta{}, false
+	}
 	if g, ok := m[groupKey].(string); ok && g != "" {
 		apiVersion = g + "/" + apiVersion
 	}
-	return yaml.TypeMeta{Kind: m[kindKey].(string), APIVersion: apiVersion}, true
+	return yaml.TypeMeta{Kind: kind, APIVersion: apiVersion}, true
 }
 
 // Resolve resolves the reference against the global schema
